@@ -2,15 +2,9 @@ SPECIFICATION Spec
 CONSTANTS
   H = 5
   SampleMod = 350
+  Mode = "ops"
 CHECK_DEADLOCK FALSE
 INVARIANTS
-  InvBuilt
-  InvParent
-  InvSet
-  InvOrder
-  InvHeight
-  InvBalance
-  InvTraversal
+  InvFastJudge
   InvDup
-  InvJudge
   Emit
